@@ -29,7 +29,7 @@ import random
 
 FAMILIES = [
     "mutex_counter", "mutex_split_alloc", "mutex_striped",
-    "atomic_fetch_add", "atomic_cas", "atomic_token",
+    "atomic_fetch_add", "atomic_cas", "atomic_token", "atomic_exchange",
     "cond_queue", "cond_pingpong", "cond_barrier",
     "join_visibility", "join_chain",
 ]
@@ -301,6 +301,57 @@ fn worker(s: Shared, id: Int64, n: Int64, w: %s) {
     params = dict(threads=t, iters=ns, width=width, delta=d, weights=ws, main_works=main_works, join_order=order)
     if width == 64:
         src[0] = src[0].replace("old.to_int64()", "old")
+    return "\n".join(src) + "\n", exp, params
+
+
+def gen_atomic_exchange(rng):
+    """exchange on AtomicInt64 AND AtomicInt32 with values that use the full width: every value stored is handed back
+    exactly once (or is the final content), so  sum(returned olds) + final == initial + sum(stored)  for each cell — an
+    exchange that moves fewer bits than the cell has breaks the identity."""
+    t, ns = _thread_sizes(rng, 300, hi=80)
+    base64 = (1 << 40) + 12345
+    base32 = (1 << 20) + 77
+    init64 = base64 * 3 + 1
+    init32 = base32 * 3 + 1
+    src = []
+    src.append("""class Shared {
+    wide: std::AtomicInt64,
+    narrow: std::AtomicInt32,
+    olds64: Array[Int64],
+    olds32: Array[Int64],
+}
+
+fn worker(s: Shared, id: Int64, n: Int64) {
+    let mut i = 0;
+    let mut olds64 = 0;
+    let mut olds32 = 0;
+    while i < n {
+        let v = %d + id * 1000003 + i * 17;
+        olds64 = olds64 + s.wide.exchange(v);
+        let w = %d + id * 1009 + i * 3;
+        olds32 = olds32 + s.narrow.exchange(w.to_int32()).to_int64();
+        i = i + 1;
+    }
+    s.olds64(id) = olds64;
+    s.olds32(id) = olds32;
+}
+""" % (base64, base32))
+    calls = ["worker(s, %d, %d)" % (i, ns[i]) for i in range(t)]
+    body, order = _spawn_join(rng, calls, None)
+    src.append("fn main() {")
+    src.append("    let s = Shared(wide = std::AtomicInt64::new(%d), narrow = std::AtomicInt32::new(%di32), "
+               "olds64 = Array[Int64]::zero(%d), olds32 = Array[Int64]::zero(%d));" % (init64, init32, t, t))
+    src += body
+    src.append("    let mut a = 0;")
+    src.append("    for b in s.olds64 { a = a + b; }")
+    src.append("    let mut c = 0;")
+    src.append("    for b in s.olds32 { c = c + b; }")
+    src.append(_print_result(["a + s.wide.get()", "c + s.narrow.get().to_int64()"]))
+    src.append("}")
+    stored64 = sum(base64 + i * 1000003 + k * 17 for i in range(t) for k in range(ns[i]))
+    stored32 = sum(base32 + i * 1009 + k * 3 for i in range(t) for k in range(ns[i]))
+    exp = _result([init64 + stored64, init32 + stored32])
+    params = dict(threads=t, iters=ns, join_order=order)
     return "\n".join(src) + "\n", exp, params
 
 
@@ -932,6 +983,7 @@ GENERATORS = {
     "atomic_token": gen_atomic_token,
     "cond_queue": gen_cond_queue,
     "cond_pingpong": gen_cond_pingpong,
+    "atomic_exchange": gen_atomic_exchange,
     "cond_barrier": gen_cond_barrier,
     "join_visibility": gen_join_visibility,
     "join_chain": gen_join_chain,
